@@ -934,7 +934,7 @@ func (x *Exec) appendOp(st *State, ins ssa.Instruction, s, e Value, call *ssa.Ca
 	if isNilSlice(s.Term) {
 		// nothing to copy
 	} else {
-		st.Assume(fmt.Sprintf("(forall ((i!q Int)) (! (=> (and (<= 0 i!q) (< i!q %s)) (= (select %s i!q) (select %s i!q))) :pattern ((select %s i!q))))", ls, newInner, oldInner, newInner))
+		st.Assume(fmt.Sprintf("(forall ((i!q Int)) (! (=> (and (<= 0 i!q) (< i!q %s)) (= (select %s i!q) (select %s i!q))) :pattern ((select %s i!q)) :pattern ((select %s i!q))))", ls, newInner, oldInner, newInner, oldInner))
 	}
 	// appended elements: concrete count if known
 	var k int
